@@ -494,6 +494,11 @@ def adversarial_programs():
         "branch-to-next-line-bz": P + "txn Fee\nint 1000\n<=\nbz next\nnext:\nint 1\nreturn",
         "b-to-next-line": P + "b next\nnext:\nint 1\nreturn",
         "bz-last-instruction": P + "int 1\nstart:\ntxn Fee\nint 1000\n<\nbz start",
+        # the index of a gtxns read is computed from ANOTHER member's GroupIndex field (not this transaction's index)
+        "foreign-groupindex-plus": P + "gtxn 1 GroupIndex\nint 1\n+\ngtxns RekeyTo\nglobal ZeroAddress\n==\nassert\nint 1\nreturn",
+        "foreign-groupindex-self": P + "gtxn 2 GroupIndex\ngtxns Fee\nint 1000\n<=\nassert\nint 1\nreturn",
+        "foreign-groupindex-minus": P + "int 1\ngtxns GroupIndex\nint 1\n-\ngtxns CloseRemainderTo\nglobal ZeroAddress\n==\nassert\nint 1\nreturn",
+        "foreign-groupindex-swapped": P + "int 2\ngtxn 0 GroupIndex\n+\ngtxns AssetCloseTo\naddr OWQEGN2AZIA77YIE7YZEZLUN2JKVRUCTSFY3U3YH7PXWIDIQIPRA4IUKII\n==\nassert\nint 1\nreturn",
         # same shape with and without a read through an absolute index (group-size-check reports only the first)
         "gsize-abs-read": P + "gtxn 1 Fee\nint 1000\n<=\nbnz ok\nerr\nok:\nint 1\nreturn",
         "gsize-plain": P + "txn Fee\nint 1000\n<=\nbnz ok\nerr\nok:\nint 1\nreturn",
